@@ -349,7 +349,371 @@ def gen_C14(rng, tier, dist):
     return cases
 
 
-GENERATORS = {"C14": gen_C14}
+def gen_hist_cases(rng, tier, dist, nq, nt, extra="", **kw):
+    n = nq if tier == "quick" else nt
+    out = []
+    for _ in range(n):
+        cfg, ops, info = gen_history(rng, dist, **kw)
+        if extra:
+            cfg += " " + extra
+        out.append(pcase(cfg, ops))
+    return out
+
+
+def small_exhaustive_histories(rng, dist, limit):
+    """all histories with <= 3 video and <= 2 audio frames over a small timestamp grid, all DTS/PTS
+    assignments (H.264 + AAC), both layouts"""
+    grid = [0.0, 1 / 30, 2 / 30, 0.1]
+    out = []
+    key = h264_key(random.Random(5), extra=False)
+    d1 = SC4 + bytes([0x41, 0xA1, 0xA2])
+    d2 = SC3 + bytes([0x41, 0xB1])
+    aframes = [adts(random.Random(6), payload=bytes([0xC1, 0xC2, 0xC3])), adts(random.Random(7), payload=bytes([0xD1]))]
+    for nv in (1, 2, 3):
+        for ptsperm in itertools.permutations(range(nv)):
+            for na in (0, 1, 2):
+                for a0 in (0.0, 1 / 30, 0.1):
+                    for fast in (0, 1):
+                        dts = grid[:nv]
+                        pts = [grid[ptsperm[i]] for i in range(nv)]
+                        frames = [key, d1, d2][:nv]
+                        ops = []
+                        for i in range(nv):
+                            ops.append("wvd %s %s %s %d" % (f64bits(pts[i] + 0.1), f64bits(dts[i]), hx(frames[i]), 1 if i == 0 else 0))
+                        for j in range(na):
+                            ops.append("wa %s %s" % (f64bits(0.1 + a0 + j * 0.02), hx(aframes[j])))
+                        ops.append("fins")
+                        out.append(pcase(cfg_str(audio="aac-lc" if na else rng.choice(["none", "aac-lc"]), fast=fast), ops))
+    rng.shuffle(out)
+    dist["small_exhaustive"] += min(limit, len(out))
+    return out[:limit]
+
+
+def gen_C01(rng, tier, dist):
+    return small_exhaustive_histories(rng, dist, 200 if tier == "quick" else 100000) + \
+        gen_hist_cases(rng, tier, dist, 500, 30000, rejects=0.1)
+
+
+def gen_C02(rng, tier, dist):
+    out = gen_hist_cases(rng, tier, dist, 500, 30000, rejects=0.05)
+    # zero frames / audio configured but no audio / single frame
+    for codec in VCODECS:
+        for audio in ["none", "aac-lc", "opus"]:
+            for fast in (0, 1):
+                out.append(pcase(cfg_str(codec=codec, audio=audio, fast=fast), ["fins"]))
+                out.append(pcase(cfg_str(codec=codec, audio=audio, fast=fast), ["wv %s %s 1" % (f64bits(0.0), hx(key_frame(rng, codec))), "fins"]))
+                dist["degenerate"] += 2
+    for _ in range(300 if tier == "quick" else 20000):
+        out.append(fcase(frag_cfg(rng, dist), frag_ops(rng, dist, maxlen=30)))
+    return out
+
+
+def gen_C03(rng, tier, dist):
+    out = gen_hist_cases(rng, tier, dist, 400, 25000)
+    # long regular runs at fractional rates: drift would show
+    nlong = 6 if tier == "quick" else 40
+    for _ in range(nlong):
+        step = rng.choice([1001 / 30000, 1001 / 24000, 1 / 30, 1001 / 60000, 1 / 90000 * 1.5])
+        n = rng.choice([300, 1000]) if tier == "quick" else rng.choice([3000, 20000])
+        codec = "vp9"
+        ops = ["wv %s %s 1" % (f64bits(0.0), hx(vp9_key(rng)))]
+        d = hx(vp9_delta(rng))
+        for i in range(1, n):
+            ops.append("wv %s %s 0" % (f64bits(i * step), d))
+        ops.append("fins")
+        out.append(pcase(cfg_str(codec=codec), ops))
+        dist["long_run"] += 1
+    return out
+
+
+def gen_C15(rng, tier, dist):
+    return small_exhaustive_histories(rng, dist, 150 if tier == "quick" else 100000) + \
+        gen_hist_cases(rng, tier, dist, 500, 30000, audio=None)
+
+
+def gen_C06(rng, tier, dist):
+    out = []
+    n = 500 if tier == "quick" else 30000
+    fins = ["fin", "fins", "finish", "finishs", "flush"]
+    for _ in range(n):
+        cfg, ops, info = gen_history(rng, dist, finish=None, rejects=0.05)
+        # 1-3 finish attempts at any position, calls after finish
+        k = rng.randrange(1, 4)
+        for _ in range(k):
+            f = rng.choice(fins[:2]) if rng.random() < 0.7 else rng.choice(fins)
+            pos = rng.randrange(len(ops) + 1) if rng.random() < 0.5 else len(ops)
+            ops.insert(pos, f)
+        if rng.random() < 0.5:
+            ops.append("wv %s %s 0" % (f64bits(999.0), hx(delta_frame(rng, info["codec"]))))
+            ops.append("wa %s %s" % (f64bits(999.0), hx(audio_frame(rng, "aac-lc"))))
+            ops.append(rng.choice(fins[:2]))
+        out.append(pcase(cfg, ops))
+    return out
+
+
+def gen_C09(rng, tier, dist):
+    return gen_hist_cases(rng, tier, dist, 400, 25000, audio=None)
+
+
+def gen_C08(rng, tier, dist):
+    return gen_hist_cases(rng, tier, dist, 400, 25000, extra="twin=fast", rejects=0.05)
+
+
+def gen_C18(rng, tier, dist):
+    out = []
+    n = 300 if tier == "quick" else 20000
+    for _ in range(n):
+        title = rng.choice([None, b"", b"x", "Tïtle é中 \U0001F600".encode(), bytes(rng.choice(b"abc XYZ") for _ in range(rng.choice([5, 100, 5000])))])
+        ctime = rng.choice([None, 0, 59, 86399, 86400, 951782399, 951782400, 951868800, 1709164800, 4107542400, 253402300799,
+                            rng.randrange(0, 253402300800), rng.randrange(0, 4102444800)])
+        lang = rng.choice([None, None] + [bytes(rng.choice(b"abcdefghijklmnopqrstuvwxyz") for _ in range(3)) for _ in range(4)] +
+                          [b"", b"e", b"en", b"ENG", "dé".encode(), b"abcd", b"e1g"])
+        md = dict(md=1, title=title, ctime=ctime, lang=lang)
+        if rng.random() < 0.1:
+            md = dict(md=0)
+        cfg, ops, info = gen_history(rng, dist, md=md, nv=rng.randrange(0, 4), na=rng.randrange(0, 3))
+        out.append(pcase(cfg + " twin=nometa", ops))
+        dist["title=%s" % ("none" if title is None else "len%d" % min(len(title), 999))] += 1
+        dist["lang=%s" % ("none" if lang is None else "wellformed" if len(lang) == 3 and lang.islower() and lang.isalpha() else "malformed")] += 1
+    # every day boundary of a sample of years incl. all leap-year cases
+    years = [1970, 1971, 1972, 1999, 2000, 2001, 2004, 2023, 2024, 2038, 2100, 2400, 9999] if tier == "quick" else range(1970, 10000, 7)
+    import datetime
+    for y in years:
+        for (mo, d) in [(1, 1), (2, 28), (3, 1), (12, 31)]:
+            t = int((datetime.datetime(y, mo, d) - datetime.datetime(1970, 1, 1)).total_seconds())
+            for dt in (-1, 0, 86399):
+                if t + dt >= 0:
+                    out.append(pcase(cfg_str(md=1, title=None, ctime=t + dt, lang=None), ["fins"]))
+                    dist["date_boundary"] += 1
+    return out
+
+
+def contract_history(rng, dist, codec, audio, maxlen=12, with_enc=True):
+    """rejection-rich call sequence from the quantifier's palettes"""
+    INF = float("inf")
+    ops = []
+    t_v = rng.choice([0.0, 0.0, 1.0])      # a plausible next video time
+    t_a = t_v
+    n = rng.randrange(1, maxlen + 1)
+    have_video = False
+    finished = False
+    for _ in range(n):
+        r = rng.random()
+        def ts(base):
+            return rng.choice([float("nan"), INF, -INF, -0.0, -1.0, 0.0, base, base, base, base - 0.01, base + 1e-7,
+                               base + 1 / 30, base + 0.02, base + 47722.0, base + 47721.8, 1e300, base + 1e-12])
+        def vframe():
+            k = rng.random()
+            if k < 0.08:
+                return b"", rng.randrange(2)
+            if k < 0.45 or not have_video and k < 0.7:
+                return key_frame(rng, codec), 1 if rng.random() < 0.9 else 0
+            if k < 0.85:
+                return delta_frame(rng, codec), 0 if rng.random() < 0.9 else 1
+            if k < 0.93:
+                return bytes(rng.randrange(256) for _ in range(rng.randrange(1, 12))), rng.randrange(2)
+            # config without key flag / key flag without config
+            return (key_frame(rng, codec), 0) if rng.random() < 0.5 else (delta_frame(rng, codec), 1)
+        def aframe():
+            k = rng.random()
+            if k < 0.08:
+                return b""
+            if k < 0.8:
+                return audio_frame(rng, audio if audio not in ("none", "cnone") else "aac-lc")
+            if k < 0.9:
+                f = bytearray(audio_frame(rng, "aac-lc")); f[rng.randrange(min(6, len(f)))] ^= 1 << rng.randrange(8); return bytes(f)
+            return bytes(rng.randrange(256) for _ in range(rng.randrange(1, 12)))
+        if r < 0.40:
+            p = ts(t_v); d, k = vframe()
+            ops.append("wv %s %s %d" % (f64bits(p), hx(d), k))
+            if p == p and 0 <= p < 1e9 and d: t_v = max(t_v, p) + 1 / 30; have_video = True
+        elif r < 0.55:
+            dts = ts(t_v); p = rng.choice([dts, dts + 0.1, dts + 1 / 30, ts(t_v)]) if dts == dts else ts(t_v); d, k = vframe()
+            ops.append("wvd %s %s %s %d" % (f64bits(p), f64bits(dts), hx(d), k))
+            if dts == dts and 0 <= dts < 1e9 and d: t_v = max(t_v, dts) + 1 / 30; have_video = True
+        elif r < 0.80:
+            p = ts(t_a)
+            ops.append("wa %s %s" % (f64bits(p), hx(aframe())))
+            if p == p and 0 <= p < 1e9: t_a = max(t_a, p) + rng.choice([0.0, 0.02])
+        elif r < 0.86 and with_enc:
+            d, k = vframe()
+            if d and not (codec in ("h264", "h265") and (d.endswith(SC3) or SC3 + SC3[:3] in d)):
+                ops.append("ev %s %d" % (hx(d), rng.choice([33, 40, 1, 1001, 0])))
+        elif r < 0.90 and with_enc:
+            ops.append("ea %s %d" % (hx(aframe() or b"\x01"), rng.choice([960, 1024, 0])))
+        else:
+            ops.append(rng.choice(["fin", "fins"]))
+    if rng.random() < 0.7:
+        ops.append(rng.choice(["fin", "fins", "finish", "finishs", "flush"]))
+    dist["len=%d" % min(len(ops), 13)] += 1
+    return ops
+
+
+def gen_C04(rng, tier, dist):
+    out = []
+    n = 2500 if tier == "quick" else 120000
+    for _ in range(n):
+        codec = rng.choice(VCODECS)
+        audio = rng.choice(AUDIOS + ["cnone"])
+        dist["codec=" + codec] += 1; dist["audio=" + audio] += 1
+        ops = contract_history(rng, dist, codec, audio)
+        out.append(pcase(cfg_str(codec=codec, audio=audio, rate=rng.choice([48000, 44100, 0]), fast=rng.randrange(2)), ops))
+    return out
+
+
+def gen_C05(rng, tier, dist):
+    out = []
+    n = 1500 if tier == "quick" else 80000
+    for _ in range(n):
+        codec = rng.choice(VCODECS)
+        audio = rng.choice(AUDIOS)
+        dist["codec=" + codec] += 1; dist["audio=" + audio] += 1
+        if rng.random() < 0.5:
+            ops = contract_history(rng, dist, codec, audio, with_enc=False)
+            ops = [o for o in ops if o not in ("fin", "fins", "finish", "finishs", "flush")] + ["fins"]
+            out.append(pcase(cfg_str(codec=codec, audio=audio, fast=rng.randrange(2)) + " twin=filter", ops))
+        else:
+            cfg, ops, info = gen_history(rng, dist, codec=codec, audio=audio, rejects=0.35)
+            out.append(pcase(cfg + " twin=filter", ops))
+    return out
+
+
+def frag_cfg(rng, dist):
+    kind = rng.choice(["h264", "h265", "av1", "vp9"])
+    via = rng.choice(["direct", "builder"])
+    w, h = rng.choice([(1920, 1080), (640, 480), (16, 16)])
+    sps = bytes([0x67, 0x42, 0x00, 0x1e]) + nal_body(rng, rng.randrange(0, 8))
+    pps = bytes([0x68]) + nal_body(rng, rng.randrange(1, 4))
+    c = "w=%d h=%d via=%s codec=%s" % (w, h, via, kind)
+    if via == "direct":
+        c += " ts=%d fd=%d" % (rng.choice([90000, 90000, 1000, 48000]), rng.choice([2000, 100, 0, 33]))
+    if kind == "h264":
+        c += " sps=%s pps=%s" % (hx(sps), hx(pps))
+    elif kind == "h265":
+        c += " sps=%s pps=%s vps=%s" % (hx(bytes([0x42, 1]) + nal_body(rng, 14)), hx(bytes([0x44, 1]) + nal_body(rng, 3)), hx(bytes([0x40, 1]) + nal_body(rng, 5)))
+    elif kind == "av1":
+        c += " av1=%s" % hx(bytes([0x0A, len(AV1_SEQ_PAYLOAD)]) + AV1_SEQ_PAYLOAD)
+    else:
+        c += " vp9=%d:%d:%d:%d:%d:%d:%d:%d:%d" % (w, h, rng.randrange(4), rng.choice([8, 10]), rng.randrange(8), rng.randrange(8), rng.randrange(2), 0, rng.randrange(2))
+    dist["frag_codec=" + kind] += 1
+    dist["frag_via=" + via] += 1
+    return c
+
+
+def frag_ops(rng, dist, maxlen=60, steps=None, start=None, reorder=None, queries=True):
+    n = rng.randrange(1, maxlen)
+    dts = rng.choice([0, 0, 90000, 1234567]) if start is None else start
+    step = rng.choice([3000, 3003, 1500, 1]) if steps is None else steps
+    vfr = rng.random() < 0.3 and steps is None
+    reorder = (rng.random() < 0.3) if reorder is None else reorder
+    ops = []
+    for i in range(n):
+        r = rng.random()
+        if r < 0.62:
+            size = rng.choice([0, 1, 2, 5, 40, 300]) if rng.random() < 0.8 else rng.randrange(0, 2000)
+            data = bytes((i * 13 + j * 7 + 1) & 0xFF for j in range(size))
+            d = dts
+            if rng.random() < 0.08:
+                d = max(0, dts - rng.choice([1, 3000, 100000]))   # probably rejected
+            pts = d + (rng.choice([0, 3000, 6000]) if reorder else 0)
+            if reorder and rng.random() < 0.2:
+                pts = max(0, d - rng.choice([1, 3000]))
+            ops.append("fw %d %d %s %d" % (pts, d, hx(data), 1 if (i == 0 or rng.random() < 0.2) else 0))
+            if d == dts:
+                dts += (rng.choice([0, 1, 3000, 3003, 9000]) if vfr else step) if rng.random() < 0.95 else 0
+        elif r < 0.8:
+            ops.append("fflush")
+            if rng.random() < 0.2:
+                ops.append("fflush")
+        elif queries and r < 0.87:
+            ops.append("fready")
+        elif queries and r < 0.93:
+            ops.append("fdur")
+        elif queries:
+            ops.append("finit")
+    ops.append("fflush")
+    if queries and rng.random() < 0.5:
+        ops.append("finit")
+    dist["frag_len=%d" % (len(ops) // 10 * 10)] += 1
+    return ops
+
+
+def fcase(cfg, ops):
+    return "F %s | %s" % (cfg, " ; ".join(ops))
+
+
+def gen_C10(rng, tier, dist):
+    out = []
+    n = 1000 if tier == "quick" else 60000
+    for _ in range(n):
+        out.append(fcase(frag_cfg(rng, dist), frag_ops(rng, dist)))
+    # exhaustive: all op sequences of length <= L over {w(+1), w(=), w(-1), flush, ready, init}
+    L = 5 if tier == "quick" else 7
+    alphabet = ["w+", "w=", "w-", "fflush", "fready", "finit"]
+    cfg = "w=640 h=480 ts=90000 fd=2000 sps=6742001e pps=68ce3880"
+    for k in range(1, L + 1):
+        for seq in itertools.product(alphabet, repeat=k):
+            dts = 10
+            ops = []
+            for i, a in enumerate(seq):
+                if a[0] == "w":
+                    dts = dts + 1 if a == "w+" else dts if a == "w=" else dts - 1
+                    ops.append("fw %d %d %s 1" % (dts, dts, hx(bytes([i + 1, 0xEE]))))
+                else:
+                    ops.append(a)
+            out.append(fcase(cfg, ops + ["fflush"]))
+    dist["exhaustive_len<=%d" % L] += sum(6 ** k for k in range(1, L + 1))
+    return out
+
+
+def gen_C11(rng, tier, dist):
+    out = []
+    n = 800 if tier == "quick" else 50000
+    for _ in range(n):
+        k = rng.random()
+        if k < 0.4:   # constant interval, >= 2 samples per segment
+            step = rng.choice([3000, 3003, 1, 1500])
+            start = rng.choice([0, 0, 90000, 7])
+            ops = []
+            dts = start
+            nseg = rng.randrange(1, 6)
+            for sgi in range(nseg):
+                for _ in range(rng.randrange(2, 6)):
+                    pts = dts + (rng.choice([0, step, 2 * step]) if rng.random() < 0.3 else 0)
+                    ops.append("fw %d %d %s %d" % (pts, dts, hx(bytes([sgi + 1, 0xAB])), rng.randrange(2)))
+                    dts += step
+                ops.append("fflush")
+                if rng.random() < 0.3:
+                    ops.append("finit")
+            dist["c11=constant"] += 1
+            out.append(fcase(frag_cfg(rng, dist), ops))
+        else:
+            dist["c11=general"] += 1
+            out.append(fcase(frag_cfg(rng, dist), frag_ops(rng, dist, maxlen=40)))
+    # exhaustive small: all DTS gap sequences of length <= 5 over {0,1,3000,3003} x all segmentations
+    L = 4 if tier == "quick" else 6
+    gapset = [0, 1, 3000, 3003]
+    cfg = "w=640 h=480 ts=90000 fd=2000 sps=6742001e pps=68ce3880"
+    for k in range(1, L + 1):
+        for gaps in itertools.product(gapset, repeat=k - 1):
+            for cuts in itertools.product([0, 1], repeat=k - 1):
+                for start in (0, 5000):
+                    dts = start
+                    ops = ["fw %d %d aa01 1" % (dts, dts)]
+                    for g, cfl in zip(gaps, cuts):
+                        if cfl:
+                            ops.append("fflush")
+                        dts += g
+                        ops.append("fw %d %d aa02 0" % (dts, dts))
+                    ops.append("fflush")
+                    out.append(fcase(cfg, ops))
+    dist["exhaustive_dts_len<=%d" % L] += 1
+    return out
+
+
+GENERATORS = {"C14": gen_C14, "C01": gen_C01, "C02": gen_C02, "C03": gen_C03, "C15": gen_C15, "C06": gen_C06,
+              "C09": gen_C09, "C08": gen_C08, "C18": gen_C18, "C04": gen_C04, "C05": gen_C05,
+              "C10": gen_C10, "C11": gen_C11}
 
 RULES = {
     "C14": "exhaustive byte strings up to a length bound over {00,01,02,03,67,FF} through both conversion entry points; "
